@@ -215,7 +215,7 @@ Definition stream_refill (d : dr) (s : stream) : out bool * stream * dr :=
       let disksz := on_disk w in
       let s' := mkStream (s_filesz s) ((s_disk_off s + disksz) mod u64m) rest (s_frag_idx s) (s_frag_off s) [] 0 in
       if disksz =? 0 then fin (zeros used) s' d
-      else if bs <? disksz then (Crash, dead_stream s, d)       (* read_at past scratch[]/buffer (DESIGN F12) *)
+      else if bs <? disksz then (Err c_SQFS_ERROR_OVERFLOW, dead_stream s, d)   (* disksz > block_size (repo fix F12; before it: read_at past scratch[]/buffer) *)
       else match file (s_disk_off s) disksz with
         | RdErr e _ => (Err e, dead_stream s, d)
         | RdOk raw =>
